@@ -58,7 +58,9 @@ pub fn write_docs(docs: &[Vec<u8>], tag: &str) -> Vec<String> {
     let dir = workdir();
     let mut paths = vec![];
     for (i, d) in docs.iter().enumerate() {
-        let p = dir.join(format!("{}{}.xml", tag, i));
+        // the order in which the files are listed is the order that counts ("first definition wins"); the names are
+        // chosen so that this order differs from the lexicographic order of the paths
+        let p = dir.join(format!("{}{}-{}.xml", tag, (i * 7 + 3) % 10, i));
         if std::fs::write(&p, d).is_err() {
             // the directory may have been cleaned up after an earlier section on this thread
             let _ = std::fs::create_dir_all(&dir);
